@@ -96,4 +96,28 @@ def reload(fs, prefixes):
         fs2.from_parser_result(p)
     except Exception as e:  # noqa
         return None, "from_parser_result raised %s: %s" % (type(e).__name__, str(e)[:80])
+    # a second set loaded from the *same* parse result (a pristine copy next to the working copy): whatever is done
+    # to one of them later must leave the other as it is
+    try:
+        twin = sfactory.FiltersSet("twin", *prefixes) if prefixes else sfactory.FiltersSet("twin")
+        twin.from_parser_result(p)
+        TWINS.append((twin, render(twin)))
+        del TWINS[:-4]
+    except Exception:  # noqa
+        pass
     return fs2, None
+
+
+TWINS = []
+
+
+def twins_changed():
+    """-> description of the first twin set whose rendering is no longer what it was when it was loaded"""
+    for twin, text in TWINS:
+        try:
+            now = render(twin)
+        except Exception as e:  # noqa
+            return "rendering a set loaded earlier from the same parse result now raises %s: %s" % (type(e).__name__, str(e)[:60])
+        if now != text:
+            return "a set loaded earlier from the same parse result changed although it was never operated on"
+    return None
